@@ -7,7 +7,7 @@ ROOT = os.path.dirname(os.path.dirname(os.path.abspath(__file__)))
 CHECKS = {
  "C01": dict(
   technique="runtime monitor: reference-model oracle (independent big-step evaluator over the core-language AST) comparing the value read back at the data-trait boundary after executing the real pipeline; shadow-stack agreement checked on the way",
-  text="Every core-language AST with at most 3 nodes (4 thorough) over 12 atoms, 25 binary and 10 unary operators, lists, nested expressions, conditionals, separators and side-effect blocks x 3 (10) input values, 27 bounded reapply loops, hand-written regression programs and 30000 (1.5 million) random programs up to several hundred nodes are printed with minimal parentheses, compiled and run to completion on both stores under a scripted host; the current value is read back through getters and compared strictly with the reference evaluator's value.",
+  text="Every core-language AST with at most 3 nodes (4 thorough) over 12 atoms, 25 binary and 10 unary operators, lists, nested expressions, conditionals, separators and side-effect blocks x 3 (10) input values, 72 bounded reapply loops (8 templates), hand-written regression programs and 400 000 (20 million) random programs up to several hundred nodes are printed with minimal parentheses, compiled and run to completion on both stores under a scripted host; the current value is read back through getters and compared strictly with the reference evaluator's value.",
   note="trusts the S-rules implemented in eval.rs; runs touching semantics the rules do not pin are skipped (counted); the printer is self-checked against the reference parser on every case",
   design="DESIGN.md §3.3, §3.4, §5 C01"),
  "C02": dict(
@@ -17,7 +17,7 @@ CHECKS = {
   design="DESIGN.md §5 C02, Appendix D"),
  "C03": dict(
   technique="runtime monitor: panic capture + logical-step budgets (verif_hooks tick counters, instruction/data budgets enforced at the data-trait boundary) over bounded-exhaustive token-class sequences, soups and scaling families; witness delta-minimisation",
-  text="Every sequence of 33 token classes up to length 3 (4 thorough, 5 without fillers) with gap fillers, random token and character soups and 14 scaling families up to 4096 (32768) repetitions are pushed through lex, parse and build into both stores; the monitor demands Ok or Err from each stage, no unwinding, at most 64(n+4)^3 loop iterations per stage and at most 16(n+4) instructions / 64(n+4)+4L data cells for an n-token input.",
+  text="Every sequence of 33 token classes up to length 3 (4 thorough, 5 without fillers) with gap fillers, random token and character soups and 14 scaling families up to 4096 (16384) repetitions are pushed through lex, parse and build into both stores; the monitor demands Ok or Err from each stage, no unwinding, at most 64(n+4)^3 loop iterations per stage and at most 16(n+4) instructions / 64(n+4)+4L data cells for an n-token input.",
   note="termination/cost decided on logical steps against a fixed cubic bound; aborts (stack overflow, OOM) are caught by the driver's crash path",
   design="DESIGN.md §5 C03, Appendix B"),
  "C04": dict(
